@@ -268,28 +268,49 @@ Theorem descriptor_path_truncated_refuted : exists s root chain,
 Proof. exact truncated_refuted_exists. Qed.
 Print Assumptions descriptor_path_truncated_refuted.
 
-(* the checker run on the implementation's DeferDescriptors decides the specification *)
-Theorem desc_path_checker_sound : forall s root chain impl,
-  desc_path_ok_b s root chain impl = true <-> impl = spec_path s root chain.
-Proof. exact desc_path_ok_sound. Qed.
+(* the checker run on the implementation's DeferDescriptors decides the specification (a defer whose fields
+   surface in several selection sets: common prefix of the cut paths) *)
+Theorem desc_path_checker_sound : forall s root chains impl,
+  desc_paths_ok_b s root chains impl = true <-> impl = spec_collector_path s root chains.
+Proof. exact desc_paths_ok_sound. Qed.
 Print Assumptions desc_path_checker_sound.
 
-(* The descriptor path is a prefix of the response position of the selection set it was computed from, so a
-   defer whose fields sit in one selection set has an anchor that composes with the renderer's subPath
-   (runtime path minus the matched prefix of the descriptor path). *)
-Theorem descriptor_anchor_consistent_partial : forall s root chain,
-  prefix_b (defer_path s root chain) (candidate chain) = true /\
-  anchor_ok_b (collector_path s root [chain]) [chain] = true.
-Proof. exact anchor_consistent_partial. Qed.
-Print Assumptions descriptor_anchor_consistent_partial.
+(* descriptor_path_truncated_partial lifted to the collector over all selection sets of one defer *)
+Theorem collector_path_truncated_partial : forall s root chains,
+  (forall c, In c chains -> chain_typed s root c = true /\ no_narrowing s root c = true) ->
+  collector_path s root chains = spec_collector_path s root chains.
+Proof. exact collector_truncated_partial. Qed.
+Print Assumptions collector_path_truncated_partial.
 
-(* Refuted for a defer whose fields surface in several selection sets (every top-level field of the fragment
-   is also selected outside it and merged away): the collector keeps the path of the first selection set,
-   which is not a prefix of the others -- recorded finding defer-merged-mount-wrong-anchor, reproduced on the
-   engine by corpus/C10 and work/c10_merged_mount_demo_test.go. *)
-Theorem descriptor_anchor_consistent_refuted : exists s root chains,
+(* Anchors compose with the renderer's subPath (runtime path minus the matched prefix of the descriptor
+   path): whatever selection sets the fields of a defer surface in (its own top-level fields may have been
+   merged into fields selected outside the fragment), the recorded path -- the common prefix of the cut paths,
+   98fef79 -- is a prefix of the response position of every one of them. *)
+Theorem descriptor_anchor_consistent : forall s root chains,
+  anchor_ok_b (collector_path s root chains) chains = true.
+Proof. exact anchor_consistent. Qed.
+Print Assumptions descriptor_anchor_consistent.
+
+Example descriptor_anchor_consistent_ex :
+  collector_path ex_schema2 b_Query ex_chains2 = [b_first] /\ collector_path_v0 ex_schema2 b_Query ex_chains2 = [b_first; b_detail].
+Proof. vm_compute. split; reflexivity. Qed.
+
+(* The collector as it was before 98fef79 (path of the first selection set only) is refuted by
+   { first { detail {text} extra {text} ... @defer { detail {note} extra {note} } } } -- the repaired half (a)
+   of the finding defer-merged-mount-wrong-anchor (regression: corpus/C10, work/c10_merged_mount_demo_test.go). *)
+Theorem descriptor_anchor_consistent_v0_refuted : exists s root chains,
   forallb (chain_typed s root) chains = true /\
   forallb (no_narrowing s root) chains = true /\
-  anchor_ok_b (collector_path s root chains) chains = false.
-Proof. exact anchor_refuted_exists. Qed.
-Print Assumptions descriptor_anchor_consistent_refuted.
+  anchor_ok_b (collector_path_v0 s root chains) chains = false /\
+  anchor_ok_b (collector_path s root chains) chains = true.
+Proof. exact anchor_v0_refuted_exists. Qed.
+Print Assumptions descriptor_anchor_consistent_v0_refuted.
+
+(* Still open (half (b) of the same finding): a nested defer is mounted at or below its parent, yet the
+   parent's recorded path need not be a prefix of the child's -- the parent is anchored below its real mount,
+   and when that anchor reads null the parent is pruned together with a child mounted above the null. *)
+Theorem descriptor_parent_prefix_refuted : exists s root parent_chains child_chains,
+  forallb (chain_typed s root) (parent_chains ++ child_chains) = true /\
+  prefix_b (collector_path s root parent_chains) (collector_path s root child_chains) = false.
+Proof. exact parent_prefix_refuted_exists. Qed.
+Print Assumptions descriptor_parent_prefix_refuted.
